@@ -66,6 +66,7 @@ def gen_c12(rng):
             tot += mag * mult
         bound = max(bound, int(tot) + 1)
     cur_dt = mk.get('dtype')
+    fbits = 2
 
     def fits(b, dt):
         if dt in FLT_DT or dt is None:
@@ -114,6 +115,13 @@ def gen_c12(rng):
                       '&': bound, '|': bound + 16, '^': bound + 16}[st['fn']]
                 if not fits(nb, cur_dt):
                     continue
+                if cur_dt in FLT_DT:
+                    # binary fraction digits of the stored values (inputs are multiples of 1/4): the result must
+                    # stay exactly representable (24 / 53 significant bits), rounding is not modelled
+                    nfb = {'+': max(fbits, 2), '-': max(fbits, 2), '*': fbits + 1, '/': fbits + 2, '**': 2 * fbits}[st['fn']]
+                    if max(1, int(nb)).bit_length() + nfb > (22 if cur_dt == 'f4' else 50):
+                        continue
+                    fbits = nfb
                 bound = nb
             hist.append(st)
         elif r < 0.8:
@@ -154,6 +162,9 @@ def gen_c12(rng):
                     continue
             if not fits(bound, tdt):
                 continue
+            if tdt in FLT_DT and cur_dt in FLT_DT and \
+                    max(1, int(bound)).bit_length() + fbits > (22 if tdt == 'f4' else 50):
+                continue      # the conversion would round
             hist.append(st)
             hist.append(chk(nxt))
             nxt += 1
